@@ -87,7 +87,7 @@ inline std::string cfg(const RI& r) {
 }
 
 // ---- independent exact interval arithmetic
-inline RI r_neg(const RI& a) { if (a.empty) return a; RI r; r.lo = a.hi; r.hi = a.lo; return r; }
+inline RI r_neg(const RI& a) { if (a.empty) return a; RI r; if (!a.hi.inf) r.lo = Bd(-a.hi.v, a.hi.open); if (!a.lo.inf) r.hi = Bd(-a.lo.v, a.lo.open); return r; }
 inline RI r_add(const RI& a, const RI& b) {
   if (a.empty || b.empty) return ri_empty();
   RI r;
@@ -340,10 +340,17 @@ template <typename ITV> struct Engine {
   bool rd(const ITV& x, RI& r, const std::string& op) {
     r = RI();
     bool li = x.lower_is_boundary_infinity(), ui = x.upper_is_boundary_infinity();
-    if ((!li && (fp_nan(x.lower()) || fp_inf(x.lower()) != 0)) || (!ui && (fp_nan(x.upper()) || fp_inf(x.upper()) != 0))) {
-      // tolerated only inside an interval PPL itself calls empty?  No: NaN / reverse infinity is never a legal bound here.
-      std::ostringstream o; o << "bound is NaN or a reverse infinity: " << pplx::str(x);
-      viol(key("flags", op, "illegal-bound"), o.str()); return false;
+    if ((!li && fp_nan(x.lower())) || (!ui && fp_nan(x.upper()))) {
+      std::ostringstream o; o << "a bound is NaN: " << pplx::str(x);
+      viol(key("flags", op, "nan-bound"), o.str()); return false;
+    }
+    // A +inf lower / -inf upper bound ("reverse infinity") is how some operations leave an empty interval
+    // (e.g. refine_universal(>, unbounded)); legal only if PPL itself calls the interval empty.
+    bool rev = (!li && fp_inf(x.lower()) != 0) || (!ui && fp_inf(x.upper()) != 0);
+    if (rev) {
+      hx::checked(1);
+      if (!x.is_empty()) { std::ostringstream o; o << "reverse infinity in a non-empty interval: " << pplx::str(x); viol(key("flags", op, "reverse-infinity"), o.str()); return false; }
+      r = ri_empty(); return true;
     }
     r.lo.inf = li; if (!li) { r.lo.v = toQ(x.lower()); r.lo.open = x.lower_is_open(); }
     r.hi.inf = ui; if (!ui) { r.hi.v = toQ(x.upper()); r.hi.open = x.upper_is_open(); }
@@ -364,12 +371,13 @@ template <typename ITV> struct Engine {
     if (x.is_singleton() != is_point(r)) { viol(key("flags", "is_singleton", op), "is_singleton()=" + std::to_string(x.is_singleton()) + " for " + show(r)); return false; }
     if (!r.empty) {
       if (x.is_bounded() != (!r.lo.inf && !r.hi.inf)) { viol(key("flags", "is_bounded", op), show(r)); return false; }
-      if (kind != K_INT_BOUNDED && x.is_universe() != (r.lo.inf && r.hi.inf)) { viol(key("flags", "is_universe", op), show(r)); return false; }
+      if (x.is_universe() != (r.lo.inf && r.hi.inf)) { viol(key("flags", "is_universe", op), show(r)); return false; }
       bool tc = (r.lo.inf || !r.lo.open) && (r.hi.inf || !r.hi.open);
       if (x.is_topologically_closed() != tc) { viol(key("flags", "is_topologically_closed", op), show(r)); return false; }
     }
-    if (kind != K_FLOAT || (r.empty || r.lo.inf || r.hi.inf || (abs(r.lo.v) < q2exp(50) && abs(r.hi.v) < q2exp(50)))) {
-      // (for float bounds of magnitude >= 2^50 the +1/-1 steps of the implementation are inexact and the
+    const int dg = std::numeric_limits<T>::is_specialized && std::numeric_limits<T>::digits > 2 ? std::numeric_limits<T>::digits - 2 : 50;
+    if (kind != K_FLOAT || (r.empty || r.lo.inf || r.hi.inf || (abs(r.lo.v) < q2exp(dg) && abs(r.hi.v) < q2exp(dg)))) {
+      // (for float bounds of magnitude >= 2^(digits-2) the +1/-1 steps of the implementation are inexact and the
       //  documentation does not promise more than an approximation; not compared there)
       bool ip = x.contains_integer_point();
       if (ip != r_has_int(r)) { viol(key("flags", "contains_integer_point", op), "contains_integer_point()=" + std::to_string(ip) + " for " + show(r)); return false; }
@@ -402,17 +410,18 @@ template <typename ITV> struct Engine {
     std::ostringstream o; o << "make " << show(want) << (how ? " via build" : " via refine") << "; ";
     hx::tr(o.str());
     const char* opn = how ? "build" : "refine_existential";
+    T l = s.l, u = s.u;   // i_constraint needs non-const lvalues for slow-copy value types
     if (s.shape == 0) x.assign(EMPTY);
     else if (how == 0) {
       x.assign(UNIVERSE);
-      if (s.shape == 2 || s.shape == 4) x.refine_existential(s.lo ? GREATER_THAN : GREATER_OR_EQUAL, s.l);
-      if (s.shape == 3 || s.shape == 4) x.refine_existential(s.uo ? LESS_THAN : LESS_OR_EQUAL, s.u);
+      if (s.shape == 2 || s.shape == 4) x.refine_existential(s.lo ? GREATER_THAN : GREATER_OR_EQUAL, l);
+      if (s.shape == 3 || s.shape == 4) x.refine_existential(s.uo ? LESS_THAN : LESS_OR_EQUAL, u);
     }
     else {
       if (s.shape == 1) x.build();
-      else if (s.shape == 2) x.build(i_constraint(s.lo ? GREATER_THAN : GREATER_OR_EQUAL, s.l));
-      else if (s.shape == 3) x.build(i_constraint(s.uo ? LESS_THAN : LESS_OR_EQUAL, s.u));
-      else x.build(i_constraint(s.lo ? GREATER_THAN : GREATER_OR_EQUAL, s.l), i_constraint(s.uo ? LESS_THAN : LESS_OR_EQUAL, s.u));
+      else if (s.shape == 2) x.build(i_constraint(s.lo ? GREATER_THAN : GREATER_OR_EQUAL, l));
+      else if (s.shape == 3) x.build(i_constraint(s.uo ? LESS_THAN : LESS_OR_EQUAL, u));
+      else x.build(i_constraint(s.lo ? GREATER_THAN : GREATER_OR_EQUAL, l), i_constraint(s.uo ? LESS_THAN : LESS_OR_EQUAL, u));
     }
     hx::count(std::string("op.") + opn);
     if (!rd(x, rx, opn)) return false;
@@ -422,16 +431,28 @@ template <typename ITV> struct Engine {
     return true;
   }
 
-  // ---- triage classes
-  std::string encl_class(const RI& a, const RI& b, const RI& r, const Q& v) const {
+  // ---- triage classes (deterministic predicates on the failing input)
+  static bool type_range(Q& mn, Q& mx) {
+    if (!std::numeric_limits<T>::is_specialized || !std::numeric_limits<T>::is_bounded) return false;
+    mx = toQ(std::numeric_limits<T>::max());
+    mn = std::numeric_limits<T>::is_integer ? toQ(std::numeric_limits<T>::min()) : Q(-mx);
+    return true;
+  }
+  bool overflows(const RI& want) const {
+    Q mn, mx; if (want.empty || !type_range(mn, mx)) return false;
+    return (!want.lo.inf && (want.lo.v < mn || want.lo.v > mx)) || (!want.hi.inf && (want.hi.v < mn || want.hi.v > mx));
+  }
+  std::string encl_class(const std::string& op, const RI& a, const RI& b, const RI& r, const Q& v, const RI& want) const {
+    if (kind == K_INT_BOUNDED && op.compare(0, 3, "div") == 0 && !b.empty && !b.hi.inf && b.hi.v <= 0) return "negative-divisor";
     if (unbounded(a) || unbounded(b)) return "unbounded-operand";
+    if (overflows(want)) return "overflow";
     if (r.empty) return "empty-result";
     if ((!r.lo.inf && v == r.lo.v && r.lo.open) || (!r.hi.inf && v == r.hi.v && r.hi.open)) return "openness-of-attained-extreme";
     return "member-outside";
   }
   std::string exact_class(const RI& a, const RI& b, const RI& want, const RI& got) const {
-    if (want.empty != got.empty) return "emptiness";
     if (unbounded(a) || unbounded(b)) return "unbounded-operand";
+    if (want.empty != got.empty) return "emptiness";
     bool lv = want.lo.inf != got.lo.inf || (!want.lo.inf && want.lo.v != got.lo.v), uv = want.hi.inf != got.hi.inf || (!want.hi.inf && want.hi.v != got.hi.v);
     if (lv || uv) return "bound-value";
     if ((!want.lo.open && got.lo.open) || (!want.hi.open && got.hi.open)) return "openness-of-attained-extreme";
@@ -443,27 +464,28 @@ template <typename ITV> struct Engine {
   // arithmetic: opk 0 add 1 sub 2 mul 3 div 4 neg
   void check_arith(const char* op, int opk, const RI& a, const RI& b, const RI& r, bool want_exact) {
     std::vector<Q> ma = members(a), mb = opk == 4 ? std::vector<Q>(1, Q(0)) : members(b);
+    RI want = opk == 0 ? r_add(a, b) : opk == 1 ? r_sub(a, b) : opk == 2 ? r_mul(a, b) : opk == 3 ? r_div(a, b) : r_neg(a);
     unsigned long n = 0;
     for (size_t i = 0; i < ma.size(); ++i) for (size_t j = 0; j < mb.size(); ++j) {
       const Q& x = ma[i]; const Q& y = mb[j];
       if (opk == 3 && y == 0) continue;
       Q v = opk == 0 ? Q(x + y) : opk == 1 ? Q(x - y) : opk == 2 ? Q(x * y) : opk == 3 ? Q(x / y) : Q(-x);
       ++n;
+      // a bug of the reference arithmetic must not look like a PPL defect: every sampled result is a member of the reference result
+      if (!mem(want, v)) { viol("harness.bug.ref_arith", ctx(a, b, want) + " v=" + qstr(v)); return; }
       if (!mem(r, v)) {
         hx::checked(n);
-        viol(key("encl", op, encl_class(a, opk == 4 ? RI() : b, r, v)), ctx(a, b, r) + " x=" + qstr(x) + " y=" + qstr(y) + " x" + op + "y=" + qstr(v) + " not in result");
+        viol(key("encl", op, encl_class(op, a, opk == 4 ? a : b, r, v, want)), ctx(a, b, r) + " x=" + qstr(x) + " y=" + qstr(y) + " x" + op + "y=" + qstr(v) + " not in result");
         return;
       }
     }
     hx::checked(n); hx::count("encl_checks", n);
-    RI want = opk == 0 ? r_add(a, b) : opk == 1 ? r_sub(a, b) : opk == 2 ? r_mul(a, b) : opk == 3 ? r_div(a, b) : r_neg(a);
     // self-check of the reference arithmetic against the same samples (a bug of the oracle must not look like a PPL defect)
-    if (want.empty && n > 0) { viol("harness.bug.ref_arith_empty", ctx(a, b, want)); return; }
     hx::checked(1);
     if (want.empty && !r.empty) { viol(key("flags", op, "nonempty-result-of-empty-set"), ctx(a, b, r)); return; }
     if (want_exact) {
       hx::checked(1); hx::count("exact_checks");
-      if (!same(want, r)) viol(key("exact", op, exact_class(a, opk == 4 ? RI() : b, want, r)), ctx(a, b, r) + " exact=" + show(want));
+      if (!same(want, r)) viol(key("exact", op, exact_class(a, opk == 4 ? a : b, want, r)), ctx(a, b, r) + " exact=" + show(want));
     }
   }
   // set operations by their definitions on sampled members; def(m) says whether m belongs to the defined set
@@ -479,7 +501,7 @@ template <typename ITV> struct Engine {
         if (!mem(want, m[i])) { viol("harness.bug.ref_set_" + op, ctx(a, b, want) + " m=" + qstr(m[i])); return; }
         if (!mem(r, m[i])) {
           hx::checked(n);
-          std::string c = cls_hint; if (!c.empty()) c += ","; c += encl_class(a, b, r, m[i]);
+          std::string c = cls_hint; if (!c.empty()) c += ","; c += encl_class(op, a, b, r, m[i], want);
           viol(key("encl", op, c), ctx(a, b, r) + " member " + qstr(m[i]) + " of the defined set is not in the result");
           return;
         }
@@ -530,8 +552,8 @@ template <typename ITV> struct Engine {
         static const char* const N[5] = { "add", "sub", "mul", "div", "neg" };
         op = N[opk];
         int alias = rnd(0, 3);   // 0: fresh receiver; 1: receiver is first operand; 2: receiver is second operand; 3: all the same object
-        RI ea = a, eb = b;
-        pre << op << (alias == 0 ? "" : alias == 1 ? "[R=A]" : alias == 2 ? "[R=B]" : "[R=A=B]") << " A=" << show(a) << " B=" << show(b) << "; ";
+        RI ea = a, eb = (alias == 3 || opk == 4) ? a : b;
+        pre << op << (alias == 0 ? "" : alias == 1 ? "[R=A]" : alias == 2 ? "[R=B]" : "[R=A=B]") << " A=" << show(a); if (opk != 4) pre << " B=" << show(eb); pre << "; ";
         hx::tr(pre.str());
         if (opk == 4) {
           if (alias & 1) { R = A; R.neg_assign(R); } else R.neg_assign(A);
@@ -540,7 +562,7 @@ template <typename ITV> struct Engine {
           if (alias == 0) arith(R, opk, A, B);
           else if (alias == 1) { R = A; arith(R, opk, R, B); }
           else if (alias == 2) { R = B; arith(R, opk, A, R); }
-          else { R = A; eb = a; arith(R, opk, R, R); }
+          else { R = A; arith(R, opk, R, R); }
         }
         hx::count("op." + op);
         if (!rd(R, r, op) || !flags(R, r, op)) return;
@@ -631,14 +653,17 @@ template <typename ITV> struct Engine {
         if (w == 0 || w == 2) want.lo = cmpL(a.lo, c.lo) <= 0 ? a.lo : c.lo; else want.hi = cmpU(a.hi, c.hi) >= 0 ? a.hi : c.hi;
         if ((w == 0 || w == 1)) { if (w == 0) want.lo = Bd(); else want.hi = Bd(); }
         std::vector<RI> from; from.push_back(a); from.push_back(want);
-        bool ex = kind == K_EXACT_OC || (w < 2 && kind != K_INT_BOUNDED) || (w < 2);
-        check_set(op, (w >= 2 && unc) ? "unconstrained" : "", a, c, r, from, [&](const Q& m) { return mem(want, m); }, ex, relax(want));
+        bool ex = kind == K_EXACT_OC || w < 2;   // the constraint value is rational: rounded into other bound types
+        check_set(op, (w >= 2 && unc) ? "unconstrained" : "", a, a, r, from, [&](const Q& m) { return mem(want, m); }, ex, relax(want));
       }
       else if (k < 830) {
         // ---------------- wrap_assign
         op = "wrap_assign";
         static const Bounded_Integer_Type_Width WS[4] = { BITS_8, BITS_8, BITS_16, BITS_32 };
         Bounded_Integer_Type_Width w = WS[rnd(0, 3)]; if (coin(5)) w = BITS_64;
+        // Known crash (UBSan: shift exponent 64, checked_float_inlines.hh sub_2exp_float/umod_2exp_float/smod_2exp_float):
+        // float-bounded intervals with w >= 64.  Reported once by --kv wrap64float=1; skipped otherwise so that the worker survives.
+        if (w == BITS_64 && kind == K_FLOAT && !hx::opt().geti("wrap64float", 0)) { hx::count("skipped.wrap64_float"); w = BITS_32; }
         bool sg = coin(); mpz_class mn, mx; mpz_class Pw; mpz_ui_pow_ui(Pw.get_mpz_t(), 2, (unsigned) w);
         if (sg) { mn = -Pw / 2; mx = Pw / 2 - 1; } else { mn = 0; mx = Pw - 1; }
         // refinement: the integer quadrant (built as Box::wrap_assign does), optionally narrowed
@@ -663,6 +688,7 @@ template <typename ITV> struct Engine {
         std::string cls;
         if (x.empty) cls = "empty"; else if (unbounded(x)) cls = "unbounded";
         else { Q span = x.hi.v - x.lo.v; cls = span < Q(Pw) - 1 ? "span<2^w-1" : span < Q(Pw) ? "2^w-1<=span<2^w" : span == Q(Pw) ? "span==2^w" : "span>2^w"; }
+        if (kind == K_INT_BOUNDED && (unsigned) w >= sizeof(T) * 8) cls += ",w>=bound-type-width";
         hx::distinct(pol + "|" + op + "|" + cfg(x) + "|" + cls + (sg ? "|s" : "|u") + "|" + cfg(r));
         if (x.empty) { hx::checked(1); if (!r.empty) viol(key("flags", op, "nonempty-result-of-empty-set"), ctx(x, rref, r)); return; }
         std::vector<Q> m = int_members(x, (unsigned) w); unsigned long n = 0;
@@ -716,7 +742,7 @@ template <typename ITV> struct Engine {
           if (!rd(R, r, op) || !flags(R, r, op)) return;
           hx::distinct(pol + "|" + op + "|" + cfg(x) + "|" + cfg(r));
           std::vector<RI> from; from.push_back(x);
-          check_set(op, "", x, RI(), r, from, [&](const Q& m) { return mem(x, m); }, kind == K_EXACT_OC, x);
+          check_set(op, "", x, x, r, from, [&](const Q& m) { return mem(x, m); }, kind == K_EXACT_OC, x);
         }
         else if (w == 4) {
           op = "assign_to_rational_interval";
@@ -725,7 +751,7 @@ template <typename ITV> struct Engine {
           Engine<Rational_Interval> re("rat_oc", K_EXACT_OC); RI x;
           if (!re.rd(X, x, op)) { dead = true; return; }
           hx::checked(1); hx::count("exact_checks");
-          if (!same(x, a)) viol(key("exact", op, exact_class(a, RI(), a, x)), "A=" + show(a) + " result=" + show(x));
+          if (!same(x, a)) viol(key("exact", op, exact_class(a, a, a, x)), "A=" + show(a) + " result=" + show(x));
           return;
         }
         else {
